@@ -101,9 +101,9 @@ class Module:
         """
         Returns a list of all parameters in the module
         """
-        params = list(self._parameters.values())
-        for m in self.submodules():
-            params += m.parameters()
+        params = []
+        for p in list(self._parameters.values()) + [p for m in self.submodules() for p in m.parameters()]:
+            if not any(p is q for q in params): params.append(p)
         return params
     
     def submodules(self) -> list['Module']:
